@@ -1,7 +1,11 @@
 import NA.Model.GateDrv
+import NA.Model.C11SessDrv
 import NA.Core.IOUtil
-/-! Driver for C11: same protocol and model as nadrv-c06 (NA/Model/GateDrv.lean); the harness
-asks for `compare` runs, with and without injected faults. -/
+/-! Driver for C11: same protocol and model as nadrv-c06 (NA/Model/GateDrv.lean) — the harness
+`c06 -prop C11` asks for `compare` runs, with and without injected faults —, plus the lines
+`SESS …` / `VOCAB …` of `harness/c11` (NA/Model/C11SessDrv.lean): the session model of C09 in
+compare mode and the specification's vocabulary. -/
 def main (_ : List String) : IO UInt32 := do
-  NA.IOUtil.eachLine NA.Gate.Drv.answer
+  NA.IOUtil.eachLine fun l =>
+    if NA.C11.SessDrv.isMine l then NA.C11.SessDrv.answer l else NA.Gate.Drv.answer l
   return 0
